@@ -79,8 +79,11 @@ class Prop:
             "CTrait.__getstate__() tuples fed to __setstate__; the oracle is the process (any "
             "sanitizer report / signal / abort). phase 'ref' (normal build): refcount deltas of "
             "sentinel values around each op of a reference-counting world vs a holder-count "
-            "model, and closed op cycles repeated in three batches of 400 that must plateau in "
-            "sys.getallocatedblocks(). non-trivial = the run executed at least one op that "
+            "model, and 22 closed op cycles (incl. failing and succeeding walks of delegation "
+            "chains: None / unfetchable delegate, circular delegation, prefix lookups) repeated "
+            "in three batches of 400 that must plateau in sys.getallocatedblocks() and leave the "
+            "reference counts of the long-lived objects (instances, classes, class traits, names) "
+            "where they were. non-trivial = the run executed at least one op that "
             "reached compiled code on an error path or under re-entrancy (san) / changed a "
             "holder count or completed a cycle batch (ref); distinct = distinct abstract traces")
     ASSUMPTIONS = ["trusted base: gcc's AddressSanitizer and UndefinedBehaviorSanitizer, CPython's "
